@@ -138,7 +138,7 @@ pub fn units(tier: Tier, _seed: u64) -> Vec<Unit> {
         let mut x = unit!(format!("C09/EFT(2,{})/bounded/k=6", ma.name()), eft_bounded(2usize, ma.clone(), 6usize)); x.panic_is_violation = true; u.push(x);
     }
     u.push(unit!("C09/linear/LaguerreFilter(0.5) over Ema(4)/s=2/m=128", linear_fading(vec![VK::LaguerreFilter(0.5), VK::Ema(4)], 2usize, 128usize, 4usize)));
-    for x in u.iter_mut() { x.budget_s = if q { 60.0 } else { 600.0 }; x.path_cap = if q { 600 } else { 5000 }; x.branch_nl_timeout_ms = Some(500); }
+    for x in u.iter_mut() { x.budget_s = if q { 60.0 } else { 600.0 }; x.path_cap = if q { 600 } else { 5000 }; x.branch_nl_timeout_ms = Some(500); x.max_decisions = 20000; }
     u
 }
 pub fn meta() -> Meta {
